@@ -143,16 +143,19 @@ def build_loss(rec):
             return lambda dx: val(dx)
         cname = lambda k: {"dirichlet": "dirichlet", "neumann": "von neumann", "none": None}[k]
         facets = ["xmin", "xmax", "ymin", "ymax"][: 2 * dim]
+        def sel(b):      # component selection: a slice, or - for a single component - possibly a plain integer
+            if rec.get("compform") == "int" and b["comp"][0] == b["comp"][1]:
+                return b["comp"][0] - 1
+            return jnp.s_[b["comp"][0] - 1:b["comp"][1]]
         if rec["bndform"] == "global":
             b0 = rec["bnd"][0]
-            kw.update(omega_boundary_fun=mk_f(b0), omega_boundary_condition=cname(b0["kind"]),
-                      omega_boundary_dim=jnp.s_[b0["comp"][0] - 1:b0["comp"][1]])
+            kw.update(omega_boundary_fun=mk_f(b0), omega_boundary_condition=cname(b0["kind"]), omega_boundary_dim=sel(b0))
         else:
             fb = list(zip(facets, rec["bnd"]))
             fb = [fb[i] for i in rec.get("keyorder", range(len(fb)))]          # insertion order of the user's dictionaries
             kw.update(omega_boundary_fun={k: (mk_f(b) if b["kind"] != "none" else None) for k, b in fb},
                       omega_boundary_condition={k: cname(b["kind"]) for k, b in fb},
-                      omega_boundary_dim={k: jnp.s_[b["comp"][0] - 1:b["comp"][1]] for k, b in fb})
+                      omega_boundary_dim={k: sel(b) for k, b in fb})
     if rec["norm"]["on"]:
         samples = rec["cols_norm"] if spinn else rec["norm"]["samples"]
         kw.update(norm_samples=jnp.asarray(np.array(samples, dtype=np.float64)), norm_int_length=float(rec["norm"]["L"]))
